@@ -912,7 +912,44 @@ func (h *harness) checkOracles(st manager.VerifState) {
 	// --- C06 (tags shown for the streams of a search page): a search that returns only SOME streams, with all tags
 	//     prefetched for the page, shows for each returned stream exactly the tags whose definition holds for it
 	//     (a tag that relates a stream to OTHER streams must be decided with what holds for those, on or off the page)
-	if len(st.Tags) != 0 && len(byID) >= 2 {
+	// (prefetching every tag for a page decides each undecided tag by searching with its definition, into which the
+	// definitions of the undecided tags it refers to are inlined, negated where the reference is negated: the normal
+	// form grows exponentially with the nesting of undecided references — a chain d -> -c -> b -> -a of four tiny
+	// definitions, all undecided, takes minutes and gigabytes (DESIGN 10.3, observation). Issued only where no
+	// undecided tag refers to an undecided tag that refers to an undecided tag.)
+	var udepthPage func(name string, seen map[string]bool) int
+	udepthPage = func(name string, seen map[string]bool) int {
+		if seen[name] {
+			return 99
+		}
+		seen[name] = true
+		defer delete(seen, name)
+		d := 0
+		for _, t1 := range st.Tags {
+			if t1.Name != name {
+				continue
+			}
+			for _, rn := range append(append([]string(nil), t1.MainTags...), t1.SubQueryTags...) {
+				for _, t2 := range st.Tags {
+					if t2.Name == rn && len(t2.Uncertain) != 0 {
+						if x := 1 + udepthPage(rn, seen); x > d {
+							d = x
+						}
+					}
+				}
+			}
+		}
+		return d
+	}
+	pageDepth := 0
+	for _, t := range st.Tags {
+		if len(t.Uncertain) != 0 {
+			if x := udepthPage(t.Name, map[string]bool{}); x > pageDepth {
+				pageDepth = x
+			}
+		}
+	}
+	if len(st.Tags) != 0 && len(byID) >= 2 && pageDepth <= 1 {
 		allDetermined := true
 		wantTags := map[uint64][]string{}
 		for id, ft := range byID {
